@@ -225,8 +225,14 @@ class Ctx:
     def quick(self):
         return self.tier == 'quick'
 
+    # thorough-tier multiplier for the properties whose cases are cheap (keeps every thorough run at 1-7 minutes)
+    THOROUGH_SCALE = dict(C01=3, C02=5, C03=5, C05=4, C08=4, C09=4, C10=4, C12=5, C13=3, C14=4, C17=4, C18=5, C19=4, C20=2)
+
     def budget(self, quick, thorough):
-        return quick if self.tier == 'quick' else thorough
+        if self.tier == 'quick':
+            return quick
+        k = self.THOROUGH_SCALE.get(self.prop, 1)
+        return thorough * k if isinstance(thorough, int) and thorough >= 50 else thorough
 
     def enough(self):
         """stop exploring once the verdict is settled by a few failing inputs"""
